@@ -171,7 +171,11 @@ func bankSendGen(senders []string, recipients []string, withFees bool) TxGen {
 		to := recipients[rng.Intn(len(recipients))]
 		if rng.Intn(12) == 0 {
 			// somebody pays straight into a module account the distributor uses (the bank refuses blocked addresses)
-			to = kernel.ModuleAddr(distModuleAccounts[rng.Intn(len(distModuleAccounts))]).String()
+			if k := rng.Intn(len(distModuleAccounts) + 1); k < len(distModuleAccounts) {
+				to = kernel.ModuleAddr(distModuleAccounts[k]).String()
+			} else {
+				to = kernel.DistMainAddr().String()
+			}
 		}
 		msg := &banktypes.MsgSend{FromAddress: kernel.ActorBech(from), ToAddress: to, Amount: sdk.NewCoins(sdk.NewCoin(coin.Denom, amt))}
 		js, err := kernel.MsgToJSON(msg)
